@@ -482,6 +482,36 @@ Empty.1.0[<=3] es
 @sealed
 ''',
     'cov/DInner.1.0.dsdl': 'uint8 a\nint16[<=2] b\n@extent 12 * 8\n',
+    'cov/TightD.1.0.dsdl': '''# delimited, extent equal to the largest serialized size, ends with non byte aligned multi-bit fields
+uint8[<=2] data
+uint3 a
+uint5 b
+@extent 32
+''',
+    'cov/TightMid.1.0.dsdl': '''uint8[<=1] p
+cov.TightD.1.0 d
+@extent 80
+''',
+    'cov/TightTop.1.0.dsdl': '''uint8 x
+cov.TightMid.1.0 m
+@sealed
+''',
+    'cov/TightLast.1.0.dsdl': '''uint8[<=3] v
+cov.TightD.1.0 last
+@sealed
+''',
+    'cov/UWrapsD.1.0.dsdl': '''# a sealed union hides a delimited option from a walk that only looks into structures
+@union
+uint8 a
+cov.DInner.1.0 d
+cov.TightD.1.0[<=2] ds
+@sealed
+''',
+    'cov/HoldsUWrapsD.1.0.dsdl': '''cov.UWrapsD.1.0 u
+uint8 t
+cov.UWrapsD.1.0[<=2] us
+@sealed
+''',
     'cov/DOuter.1.0.dsdl': '''uint3 pre
 DInner.1.0 one
 DInner.1.0[<=2] many
